@@ -124,9 +124,13 @@ impl<R> Archive<R> {
         ) as usize;
 
         // Read the dictionary, chunk data offset and header hash
+        let remaining_header_size = match dictionary_size.checked_add(8 + 64) {
+            Some(size) => size,
+            None => return Err(ArchiveError::invalid_archive("invalid dictionary size")),
+        };
         header.extend_from_slice(
             &reader
-                .read_at(header::PRE_HEADER_SIZE as u64, dictionary_size + 8 + 64)
+                .read_at(header::PRE_HEADER_SIZE as u64, remaining_header_size)
                 .await
                 .map_err(ArchiveError::ReaderError)?,
         );
